@@ -1,6 +1,7 @@
 package main
 
 import (
+	"bytes"
 	"bufio"
 	"context"
 	"fmt"
@@ -100,6 +101,9 @@ func execOne(mgr *server.Manager, argv [][]byte) (res execResult) {
 				recorder.mu.Unlock()
 			}()
 		}
+		// the argument vector reaches the executor the way a client's does: framed as a RESP array and read back by the real parser
+		// (slices cut out of the parser's own buffers, with whatever spare capacity it leaves behind them)
+		argv = viaWire(argv)
 		r.t0 = time.Now().Unix()
 		var out resp.RedisData
 		if clusterPath {
@@ -121,6 +125,46 @@ func execOne(mgr *server.Manager, argv [][]byte) (res execResult) {
 		return r
 	case <-time.After(10 * time.Second):
 		return execResult{reply: "HANG", t0: time.Now().Unix(), t1: time.Now().Unix()}
+	}
+}
+
+// viaWire frames argv as a RESP array of bulk strings and decodes it with resp.ParseStream + ToCommand, exactly what
+// Manager.Handle does with a client's bytes; on any decode problem the original vector is used (the parser has its own engine, C02).
+func viaWire(argv [][]byte) [][]byte {
+	if len(argv) == 0 || os.Getenv("VERIF_NOWIRE") != "" {
+		return argv
+	}
+	var b bytes.Buffer
+	fmt.Fprintf(&b, "*%d\r\n", len(argv))
+	for _, a := range argv {
+		fmt.Fprintf(&b, "$%d\r\n", len(a))
+		b.Write(a)
+		b.WriteString("\r\n")
+	}
+	ctx, cancel := context.WithCancel(context.Background())
+	defer cancel()
+	ch := resp.ParseStream(ctx, &b)
+	select {
+	case p := <-ch:
+		if p == nil || p.Err != nil {
+			return argv
+		}
+		arr, ok := p.Data.(*resp.ArrayData)
+		if !ok {
+			return argv
+		}
+		got := arr.ToCommand()
+		if len(got) != len(argv) {
+			return argv
+		}
+		for i := range got {
+			if !bytes.Equal(got[i], argv[i]) {
+				return argv
+			}
+		}
+		return got
+	case <-time.After(2 * time.Second):
+		return argv
 	}
 }
 
